@@ -53,6 +53,12 @@ Stream(s) ==
     [] s.body = "oversize"  -> [msgs |-> <<>>, codes |-> IF s.limit > 0 THEN {3, 8} ELSE {0}]
     [] s.body = "cnoenc"    -> IF s.enc = "gzip" THEN [msgs |-> <<1>>, codes |-> {0}]     \* the header does name it
                                ELSE [msgs |-> <<>>, codes |-> IF RawBody(s) THEN {3} ELSE {3, 13}]
+    \* a first frame with protocol-specific flag bits (end-of-stream / trailer / unknown), empty or not:
+    \* never a message.  Where the library reads the first message itself the call must fail; stream-shaped
+    \* handlers see the end of their input one way or the other (don't care).
+    [] s.body \in {"flagged", "flagged0"} -> IF RawBody(s) THEN [msgs |-> <<>>, codes |-> 0..16]
+                               ELSE IF FirstMessage(s) THEN [msgs |-> <<>>, codes |-> 1..16]
+                               ELSE [msgs |-> <<>>, codes |-> 0..16]
     [] s.body = "msgthenbad" -> [msgs |-> <<1>>, codes |-> IF FirstMessage(s) THEN {0} ELSE {3}]
 
 HTTPStatusOf(c) ==
